@@ -513,7 +513,7 @@ func (c *Checker) compareDigests(o evalOpts, rr *RunResult) ([]Violation, error)
 
 // sysRejected: operations of the systematic part of C13's bank (every rejected definition x entry point) carry their
 // expected verdict by construction and are not compared with a fresh-process baseline.
-func sysRejected(prop string, op uint64) bool { return prop == "C13" && op >= 1<<32 }
+func sysRejected(prop string, op uint64) bool { return prop == "C13" && op >= 1<<32 && op < 1<<36 }
 
 // shapeClass reduces a type shape to a coarse class so that signatures are stable but not seed-specific.
 func shapeClass(tag string) string {
